@@ -118,6 +118,7 @@ func runCase(p *Property, c *Ctx) (f *failure) {
 	// every case starts from the package-level state of a fresh process
 	gtree.SimResetGlobals()
 	markdown.SimResetGlobals()
+	color.NoColor = true // (what fatih/color decides at start-up when stdout is not a terminal)
 	defer func() {
 		if r := recover(); r != nil {
 			if _, ok := r.(caseAbort); ok {
